@@ -19,7 +19,7 @@ ASSUMPTIONS = ['power / image tolerances 4e-2 (>= 6x the worst interpolation res
                'scale factors are drawn so that n*s is not within 1e-9 of an integer unless it is exactly one']
 PLAN = {'quick': {'gen': 8}, 'thorough': {'gen': 16, 'tests': 1, 'docs': 1}}
 REQUIRED_BUCKETS = ['s<1', 's>1', 's=1', 's:integer', 'shape:odd', 'shape:even', 'shape:nonsquare', 'monolithic', 'segmented',
-                    'resample', 'resample:refused', 'scalar-attributes', 'mask-dtype', 'amp:signed', 's:decimal-near-integer-product', 'subclass:property-override']
+                    'resample', 'resample:refused', 'scalar-attributes', 'mask-dtype', 'amp:signed', 's:decimal-near-integer-product', 'subclass:property-override', 'opd:exact-zeros']
 REQUIRED_ANCHORS = ['probe:Plane.rescale', 'anchor:Plane.resample', 'anchor:util.rescale', 'anchor:_plane_slice']
 REQUIRED_ORACLES = ['pixelscale/s', 'shape=ceil(n*s)', 'mask:binary+segments', 'original-untouched', 'identity', 'power',
                     'image', 'extent', 'resample=rescale', 'resample:refused']
@@ -235,6 +235,25 @@ def workload(ctx, lentil):
                           dict(desc, shapes=[list(a_s.shape), list(a_0.shape), list(o_s.shape), list(o_0.shape)]))
             except Exception as e:
                 ctx.check(False, 'resample=rescale', f'rescale|subclass|raises={type(e).__name__}', str(e), desc)
+        # (a "fit the segment tilts, then rescale" scenario was tried and withdrawn: the residual OPD of a segmented fit jumps at
+        # the segment boundaries by (difference of the fitted tilts) x (distance from the axis), so it is not smooth on the sampling
+        # grid and its spline interpolation rings - several per cent of image error on the unchanged tree.  The half-pixel decentre
+        # of util.rescale that motivated it is decided directly by C20's rescale:origin oracle.)
+        # an OPD that passes through exactly 0.0 inside the aperture (a tilt through the array centre, a node line): the rescaled map
+        # does not care whether a sample is 0.0 or 1e-15 m
+        if i % 4 == 1:
+            ctx.bucket('opd:exact-zeros')
+            try:
+                odd = wl * 0.2 * np.sin((jj - n[1] // 2) / 6.0) * np.sin((ii - n[0] // 2) / 5.0)      # zero row and column at the origin
+                pa = lentil.Pupil(amplitude=amp, opd=odd, pixelscale=dx, focal_length=z, **kw)
+                pb = lentil.Pupil(amplitude=amp, opd=odd + 1e-15, pixelscale=dx, focal_length=z, **kw)
+                with probe.quiet():
+                    qa, qb = pa.rescale(s), pb.rescale(s)
+                ctx.close('image', np.asarray(qa.opd, float), np.asarray(qb.opd, float) - 1e-15, 1e-6, 'rescale|opd|exact-zeros',
+                          'the rescaled OPD changes when 1e-15 m of piston is added to a map that contains exact zeros', desc,
+                          scale=float(np.abs(odd).max()))
+            except Exception as e:
+                ctx.check(False, 'image', f'rescale|opd-zeros|raises={type(e).__name__}', str(e), desc)
         # identity
         if i % 3 == 0:
             ctx.case(dict(desc, s=1.0), ['s=1'], nontrivial=False)
@@ -249,6 +268,9 @@ def workload(ctx, lentil):
             ctx.case(dict(desc, resample=target), ['resample'])
             try:
                 r2 = pl.resample(target)
+                ctx.check(tuple(r2.pixelscale) == (target, target), 'pixelscale/s', 'resample|target-pixelscale',
+                          'a plane resampled to a target pixel scale does not carry exactly that pixel scale (a later product with a plane '
+                          'at the target scale is then refused)', dict(desc, got=list(r2.pixelscale), target=target))
                 s_eff = dx / target
                 ok = (np.shape(r2.amplitude) == np.shape(pl.rescale(s_eff).amplitude) and
                       abs(r2.pixelscale[0] - dx / s_eff) <= 1e-15 * dx and np.allclose(r2.amplitude, pl.rescale(s_eff).amplitude, rtol=0, atol=0))
@@ -268,6 +290,15 @@ def workload(ctx, lentil):
             ctx.check(ok_new and probe.fingerprint(pl) == fp0, 'original-untouched', 'resample|same-scale|alias',
                       'resample to the current pixel scale returned the plane itself (editing the result edits the original)', desc)
         if i % 5 == 0:
+            # decimal pixel scales whose ratio does not divide back exactly (0.15 / (0.15 / 0.07) != 0.07)
+            for old_ps, new_ps in ((0.15, 0.07), (0.07, 0.03), (0.07, 0.12)):
+                try:
+                    rr_ = lentil.Pupil(amplitude=amp, opd=opd, pixelscale=old_ps, focal_length=z, **kw).resample(new_ps)
+                    ctx.check(tuple(rr_.pixelscale) == (new_ps, new_ps), 'pixelscale/s', 'resample|target-pixelscale',
+                              'a plane resampled to a target pixel scale does not carry exactly that pixel scale (a later product with a plane '
+                              'at the target scale is then refused)', dict(desc, got=list(rr_.pixelscale), target=new_ps))
+                except Exception as e:
+                    ctx.check(False, 'pixelscale/s', f'resample|target|raises={type(e).__name__}', str(e), desc)
             ctx.bucket('resample:refused')
             aniso = lentil.Pupil(amplitude=amp, opd=opd, pixelscale=(dx, dx * 1.3), focal_length=z)
             ctx.expect_raises('resample:refused', (NotImplementedError,), lambda: aniso.resample(dx / 2), 'resample|aniso',
